@@ -24,6 +24,9 @@ CLAIMED = {
  "C17": ("c17", "Rocq/Coq proof over Z (axiom-free): the kd cell lower bound is below the squared distance to every point of the cell; one step of the incremental query preserves the invariant (every point not yet queued is at squared distance >= radius, every queued leaf's key is its true distance) and returns a pending point of minimal true distance; hence for every well-formed tree with single-point leaves and every k <= n the query returns k distinct indices with their true distances in non-decreasing order and no unreported point is closer. The tree actually built by /repo is read back on every run and checked with the extracted, proved-sound well-formedness test; the query is compared step by step (results, queue size, radius) with the extracted model on integer point sets with duplicates, collinear points and points on splitting planes; LC/KHC trees, bucket size > 1 and NearestNeighborModel (tree vs brute force back-end) are checked against exhaustive search only. kd construction well-formedness is checked per tree, not proved (partial).",
          "Trusted: Coq kernel, extraction, OCaml driver, harness (reads private tree fields via #define private public), generators. Known finding C17-F4 (bucket size > 1) is listed in known_findings.json.",
          "Coq proof (query invariant, k-smallest theorem over all well-formed trees) + per-run well-formedness check of the real tree + step correspondence"),
+ "C02": ("c02", "Rocq/Coq proof over any field (record of operations with field_theory; instantiated with Qc for execution), axiom-free: all four triangular substitution loops (lower/upper x dot/axpy form, unit flag, left/right side) return x with T*x = b exactly for every n, a zero pivot is reported and never divided by; the blocked trsm recursion is correct for every block size (right side through the transposition the code uses); the unblocked Cholesky kernels reproduce A on the stored triangle and leave the opposite triangle untouched (square root only needs to be exact on the pivots met); Cholesky solve = two triangular solves; inv(A)%B = solve for the lower-triangular tags (partial). Tie: extracted Qc model vs. remora solve()/decomposition classes for every tag x side x orientation x vector/matrix right-hand side, sizes crossing the blocking thresholds (32/16/4/20), both the default kernels and the OpenBLAS bindings, on exactly representable systems (comparison by equality); residual / least-squares / L*L^T / P*A=L*U / Q*D*Q^T / rank-one-update monitors on well-conditioned random systems. Blocked potrf, pstrf, getrf, syev, CG and the rank-one update are compared or monitored, not proved.",
+         "Trusted: Coq kernel, extraction (Qc arithmetic from the standard library is extracted, no Extract Constant), OCaml driver, harness, generators. Modelled not verified: OpenBLAS.",
+         "Coq proof (loop invariants of substitution and Cholesky over an abstract field) + exact correspondence on representable systems"),
 }
 
 REASONS_TODO = "not claimed yet in this revision: the Coq model and its correspondence check for this property are still being built (see DESIGN.md section 3); no check is registered so nothing is asserted about it"
